@@ -157,6 +157,24 @@ func cmdCheck(args []string) int {
 	}
 	workers := runtime.NumCPU()
 	results := DischargeAll(obls, timeout, workers, *tier == "thorough")
+	// second pass: what no solver decided within the budget is retried with three times the budget and few workers,
+	// so that a loaded machine does not turn a slow proof into an alarm
+	var retry []*Obligation
+	var retryIdx []int
+	for i, r := range results {
+		if r.Status == "unknown" {
+			retry = append(retry, r.O)
+			retryIdx = append(retryIdx, i)
+		}
+	}
+	retried := len(retry)
+	if retried > 0 && retried <= 64 {
+		rr := DischargeAll(retry, timeout*3, 4, false)
+		for k, r := range rr {
+			r.Seconds += results[retryIdx[k]].Seconds
+			results[retryIdx[k]] = r
+		}
+	}
 	// thorough: cross-confirm with a second solver where it answers
 	confirmed, disagreements := 0, 0
 	if *tier == "thorough" {
@@ -260,9 +278,64 @@ func cmdCheck(args []string) int {
 	sort.Strings(fnames)
 	var assumptions []string
 	assumptions = append(assumptions, baseAssumptions...)
+	// callee contracts used at call sites: discharged by this check when the callee is selected at that facet level,
+	// otherwise by the check of another property (named), otherwise an unverified assumption
+	selHas := map[string]bool{}
+	for _, fl := range sel {
+		selHas[fmt.Sprintf("%s@%d", fl.Func, fl.Level)] = true
+	}
+	var elsewhere []string
+	seenCallee := map[string]bool{}
 	for n := range notes {
+		if strings.HasPrefix(n, "callee-contract:") {
+			rest := strings.TrimPrefix(n, "callee-contract:")
+			k := strings.LastIndex(rest, "@")
+			callee := rest[:k]
+			lvl := int(rest[k+1] - '0')
+			ct := E.effectiveContract(callee)
+			if ct == nil {
+				continue
+			}
+			// the facets of the postcondition clauses the call site relied on
+			need := map[int]bool{}
+			for _, group := range [][]*Clause{ct.Ensures, ct.Preserves} {
+				for _, c := range group {
+					if facetLevel[c.Facet] <= lvl {
+						need[facetLevel[c.Facet]] = true
+					}
+				}
+			}
+			for f := range need {
+				key := fmt.Sprintf("%s@%d", callee, f)
+				if selHas[key] || seenCallee[key] {
+					continue
+				}
+				seenCallee[key] = true
+				var by []string
+				if !ct.NoVerify {
+					for _, id := range sortedPropIDs() {
+						if id == *prop {
+							continue
+						}
+						for _, fl := range E.Select(Props[id]) {
+							if fl.Func == callee && fl.Level == f {
+								by = append(by, id)
+								break
+							}
+						}
+					}
+				}
+				if len(by) == 0 {
+					assumptions = append(assumptions, fmt.Sprintf("callee contract assumed, not discharged by any registered check: %s (facet %s clauses)", callee, levelNames[f]))
+				} else {
+					elsewhere = append(elsewhere, fmt.Sprintf("%s [%s] discharged under %s", callee, levelNames[f], strings.Join(by, ",")))
+				}
+			}
+			continue
+		}
 		assumptions = append(assumptions, n)
 	}
+	sort.Strings(elsewhere)
 	for name, ct := range S.Contracts {
 		if ct.AssumeFacets != "" {
 			assumptions = append(assumptions, "facet "+ct.AssumeFacets+" clauses assumed (not verified) for "+name)
@@ -281,7 +354,7 @@ func cmdCheck(args []string) int {
 	cov := map[string]interface{}{
 		"obligations":            total,
 		"discharged":             discharged,
-		"checker_cmd":            fmt.Sprintf("/verif/bin/vcgo check -property %s -tier %s   (per obligation: z3-new -T:%d q.smt2; fallback z3 4.8.12, cvc5 1.0.3)", *prop, *tier, timeout),
+		"checker_cmd":            fmt.Sprintf("/verif/bin/vcgo check -property %s -tier %s   (per obligation: sliced query then full query on z3-new 5.1.0 (8 s), then z3-new, z3 4.8.12 and cvc5 1.0.3 raced with -T:%d; undecided ones retried once with three times the budget)", *prop, *tier, timeout),
 		"trusted_base":           trustedBase,
 		"functions_under_contract": fnames,
 		"functions":              len(fnames),
@@ -292,6 +365,8 @@ func cmdCheck(args []string) int {
 		"slowest":                slow,
 		"unsupported":            unsupported,
 		"cover_undecided":        coverUndecided,
+		"callee_contracts_discharged_by_other_checks": elsewhere,
+		"retried_with_3x_budget": retried,
 		"known_findings_matched": len(knownPrinted),
 		"explanation":            "every obligation is generated from /repo's current source (go/ssa) and the contracts in contracts_verif.go; integers are mathematical with Go's wrap-around modelled explicitly; loops are cut at inductive invariants, calls use callee contracts",
 	}
